@@ -36,6 +36,19 @@ def driver_source(stem, shapes, raw=False):
         out.append('size_t gbs_%s(const %s* x) { return x->get_byte_size(); }\n' % (n, n))
         out.append('long ebs_%s() { return %s::encoded_byte_size; }\n' % (n, n))
         out.append('size_t sizeof_%s() { return sizeof(%s); }\n' % (n, n))
+    out.append('#include <cstddef>\n')
+    for t in W.collect_types(shapes):
+        tt = W.strip(t)
+        if isinstance(t, W.Typedef) or not isinstance(tt, (W.Struct, W.Union)):
+            continue
+        if isinstance(tt, W.Union):
+            names = ['discriminator'] + [a[1] for a in tt.arms]
+        else:
+            sz = W.sizer_names(tt)
+            names = [f.name for f in tt.fields if f.name not in sz]
+        for m in names:
+            out.append('size_t off_%s__%s() { return offsetof(%s, %s); }\n' % (tt.name, m, tt.name, m))
+        out.append('size_t tsize_%s() { return sizeof(%s); }\n' % (tt.name, tt.name))
     out.append('}\n')
     return ''.join(out)
 
